@@ -6,6 +6,7 @@ import (
 
 	"kvassverif/core"
 	_ "kvassverif/cycle"
+	_ "kvassverif/disco"
 	_ "kvassverif/k8seng"
 	_ "kvassverif/node"
 )
